@@ -243,6 +243,7 @@ def model_times(ops):
 
 FAKE_CLOCK = [False]
 TICKS = [[0]]
+EXACT_CLOCK = [True]
 REPORTED_AT = {}
 FAKE_BASE = datetime.datetime(1991, 1, 1, tzinfo=datetime.timezone.utc)
 
@@ -471,7 +472,7 @@ def check_log(ctx, workload, sch, log, sem, errors, exc, threads, fault, detail)
                       "block.own-start-time", lambda: {"test": s["id"], "times": [repr(x) for x in times],
                                                        "want (seconds after BASE, None = system clock)": want_times,
                                                        **detail()})
-            if FAKE_CLOCK[0] and len(times) >= 2 and times[1] is not None and s["id"] in REPORTED_AT \
+            if FAKE_CLOCK[0] and EXACT_CLOCK[0] and len(times) >= 2 and times[1] is not None and s["id"] in REPORTED_AT \
                     and 0 <= (times[1] - FAKE_BASE).total_seconds() < 86400:
                 # the end time is the clock reading when the test REPORTED (the forwarder reads its clock first thing),
                 # not when the target became free for its block
@@ -499,6 +500,9 @@ def x_schedule(ctx, case):
     else:
         chooser = S.replay_chooser(case.get("prefix", []))
     FAKE_CLOCK[0] = bool(case.get("own_clock"))
+    # (with yield points at every line another forwarder may read the shared logical clock between a test's report
+    # and its forwarder's own reading: "the reading when the test reported" is exact only without them)
+    EXACT_CLOCK[0] = not case.get("lines")
     sch, log, sem, errors, exc, threads = execute(workload, chooser, fault, case.get("lines", False))
     detail = lambda: {"schedule": [k for n, k, c in sch.choices][:80], "fault": fault,  # noqa: E731
                       "trace-tail": sch.trace[-12:]}
